@@ -758,36 +758,50 @@ class Run:
 
     # -- the PrimMachine design model and its cases (direction A for C03/C13/C18) -----------------
     def prim_model_replay(self):
-        r = self.model("MCPrims.tla", "MCPrims.cfg" if self.tier == "quick" else "MCPrims_thorough.cfg", note="every writer call of the finite family MCPrims!AllCalls followed by the matching reader: ExactWidth, ReadBack, PairRelation, WrapRefused")
+        """the PrimMachine design model; every case it exports (a writer call, then the matching reader) is executed on the real
+        primitives and the recorded events are judged by the trace specification with THIS property's clauses"""
+        r = self.model("MCPrims.tla", "MCPrims.cfg" if self.tier == "quick" else "MCPrims_thorough.cfg",
+                       note="every writer call of the finite family MCPrims!AllCalls followed by the matching reader: ExactWidth, ReadBack, PairRelation, WrapRefused")
         cases = [parse_tla_string(x) for x in tlc_prints(r["out"], "PRIMCASE")]
         if not cases:
             raise Broken("no primitive case exported")
-        vd = self.build()
-        inp = os.path.join(self.scratch, "primcases.ndjson")
-        open(inp, "w").write("\n".join(cases) + "\n")
         t0 = time.time()
-        p = subprocess.run([vd, "replay-prims", "-in", inp, "-out", inp + ".res"], capture_output=True, text=True, timeout=1800,
-                           env=dict(os.environ, VERIF_SCHEMA=SCHEMA))
-        if p.returncode != 0:
-            raise Broken("replay-prims failed: " + p.stderr[-1500:])
-        results = [json.loads(l) for l in open(inp + ".res")]
-        bad = [x for x in results if x["verdict"] != "ok"]
-        self.cov["replay_runs"].append({"model": "MCPrims.tla/MCPrims.cfg", "cases_exported": len(cases), "cases_replayed": len(results), "mismatches": len(bad),
+        hp = os.path.join(self.scratch, "hist-primcases.ndjson")
+        with open(hp, "w") as f:
+            group = []
+            for k, cs in enumerate(cases):
+                c = json.loads(cs)
+                b = "b%d" % (k % 40)
+                group += [{"op": "write", "b": b, "bytes": [9, 9, 9]}, {"op": "next", "b": b, "k": 3},     # consumed prior content: the primitive must only append
+                          {"op": "prim", "b": b, "fn": c["fn"], "args": c["a"], "tag": "model-case"}]
+                if c["ok"]:
+                    group.append({"op": "prim", "b": b, "fn": c["rfn"], "args": c["a"], "tag": "read-back"})
+                if k % 40 == 39:
+                    f.write(json.dumps(group) + "\n")
+                    group = []
+            if group:
+                f.write(json.dumps(group) + "\n")
+        path, st = self.child_trace(hp, "model-cases")
+        res = validate_trace(path, self.prop, self.scratch, chunk=4000)
+        if res["nchk"] != st["events"]:
+            raise Broken("TLC validated %d events, the replay wrote %d" % (res["nchk"], st["events"]))
+        self.cov["states"] += res["distinct"]
+        self.cov["transitions"] += res["generated"]
+        self._classify(res["bad"], path, "model-cases")
+        nbad = len([b for b in res["bad"] if b["clause"].split(".")[0] == self.prop])
+        os.remove(path)
+        self.cov["replay_runs"].append({"model": "MCPrims.tla", "cases_exported": len(cases), "cases_replayed": len(cases), "rejected": nbad,
                                         "wall_s": round(time.time() - t0, 1)})
-        self.cov["traces_validated_against_impl"] += len(results)
-        self.cov["evaluations"] += 2 * len(results)
+        self.cov["traces_validated_against_impl"] += len(cases)
+        self.cov["evaluations"] += 2 * len(cases)
         self.cov["distinct_nontrivial"] += len(set(cases))
         if len(self.cov["samples"]) < 4:
             self.cov["samples"].append({"primitive_case": json.loads(cases[len(cases) // 2])})
-        log("  replay MCPrims.cfg              %6d primitive cases (write + read back) executed on the real primitives: mismatches=%d (%.1fs)" %
-            (len(results), len(bad), time.time() - t0))
-        for x in bad[:5]:
-            if len(self.violations) < 5:
-                rp = self.write_replay({"kind": "primcase", "why": x["why"], "case": x["behaviour"]})
-                self.violations.append({"what": "model case: " + x["why"], "replay": rp})
+        log("  replay MCPrims                  %6d primitive cases (write + read back) executed on the real primitives, judged by this property's clauses: rejected=%d (%.1fs)" %
+            (len(cases), nbad, time.time() - t0))
 
     # -- C20 -------------------------------------------------------------------------------------
-    def parallel(self, driver, n, goroutines=16, rounds=1, types=None, seed_off=0, small=False):
+    def parallel(self, driver, n, goroutines=16, rounds=1, types=None, seed_off=0, small=False, race_filter=None, prop_clauses="C20"):
         """the driver's histories run alone and then by many goroutines at once (race detector on);
         TLC validates the parallel events sequentially and against their solo twins"""
         vd = self.build()
@@ -797,12 +811,16 @@ class Run:
         cmd = [vr, "conc", "parallel", "-in", hp, "-out", out, "-goroutines", str(goroutines), "-rounds", str(rounds)]
         p = subprocess.run(cmd, capture_output=True, text=True, timeout=3600,
                            env=dict(os.environ, GORACE="halt_on_error=0 exitcode=66", VERIF_SCHEMA=SCHEMA))
-        if "DATA RACE" in p.stderr or p.returncode == 66:
+        raced = "DATA RACE" in p.stderr or p.returncode == 66
+        if raced and (race_filter is None or race_filter in p.stderr):
             rp = self.write_replay({"kind": "race", "cmd": " ".join(cmd[1:]), "report": p.stderr[:6000], "histories": open(hp).read().splitlines()[:2000]})
             self.violations.append({"what": "the race detector reported a data race while independent messages were encoded/decoded in parallel", "replay": rp})
             log("  parallel %s: DATA RACE reported by the race detector" % driver)
             return
-        if p.returncode != 0:
+        if raced:
+            log("  parallel %s: a data race NOT involving %s was reported - not this property's; the results are judged all the same" % (driver, race_filter))
+            self.assumptions.append("the race detector reported a race outside %s during the parallel stage; that belongs to C20" % race_filter)
+        if p.returncode not in (0, 66):
             raise Broken("conc parallel failed: rc=%d %s" % (p.returncode, p.stderr[-1500:]))
         # the solo events must stay addressable by line number: no chunking, one TLC run
         nev = sum(1 for _ in open(out))
@@ -817,7 +835,7 @@ class Run:
                 if len(st["samples"]) < 2:
                     st["samples"].append(e)
         st["classes"] = len(classes)
-        res = validate_trace(out, "C20", self.scratch, chunk=10 ** 9)
+        res = validate_trace(out, prop_clauses, self.scratch, chunk=10 ** 9)
         if res["nchk"] != nev:
             raise Broken("TLC validated %d of %d events" % (res["nchk"], nev))
         self.cov["traces_validated_against_impl"] += nh
